@@ -18,6 +18,7 @@ import asyncio
 import contextlib
 import hashlib
 import io
+import json
 import os
 import sys
 
@@ -184,11 +185,115 @@ def rail_name(cat, i):
     return f"{cat} rail {i}"
 
 
+# ----------------------------------------------------------------------------- predefined bot messages with template variables
+# A predefined bot message may interpolate context variables, in two syntaxes: `{{ var }}` (Jinja) and `$var`
+# (`LLMGenerationActions._render_string` rewrites `$var` to `{{var}}` first).  A *template* is a list of parts
+#     ["lit", text] | ["var", name, "jinja" | "tight" | "dollar"]
+# (source: `{{ name }}` / `{{name}}` / `$name`).  The variables are set by the rail flows right before they utter the message:
+#     $block_reason = $verdict.reason       (an arbitrary text handed out by the scripted action: cfg["reasons"][cat][i])
+#     $blocked_text = $user_message | $bot_message     (the text the rail was shown)
+# `$user_message` is the runtime's own variable, `nothing_set` is never set (an undefined variable renders as the empty text).
+# cfg["msgs"] = {"refusal": template | None,                 # `define bot refuse to respond` (None: the library's message)
+#                "own": {"input": [template | None, …], "output": […]},   # rail i answers with its OWN predefined message `bot refuse <cat> <i>`
+#                "notice": template | None}                   # the rails first utter `bot inform blocked` (a second predefined message)
+TPL_VARS = ("block_reason", "blocked_text", "user_message", "nothing_set")
+
+
+def tpl_source(parts):
+    out = []
+    for p in parts:
+        if p[0] == "lit":
+            out.append(p[1])
+        elif p[2] == "jinja":
+            out.append("{{ " + p[1] + " }}")
+        elif p[2] == "tight":
+            out.append("{{" + p[1] + "}}")
+        else:
+            out.append("$" + p[1])
+    return "".join(out)
+
+
+def tpl_render(parts, env):
+    """what the message says: every variable replaced by its current value, once (a value is only a text); a variable that was
+    never set contributes nothing"""
+    out = []
+    for p in parts:
+        if p[0] == "lit":
+            out.append(p[1])
+        else:
+            v = env.get(p[1])
+            out.append("" if v is None else str(v))
+    # documented for predefined messages (`clean_utterance_content`: "If \\n is used inside a predefined message … it should be
+    # translated to an actual newline character"): the two characters backslash + n stand for a line break
+    return "".join(out).replace("\\n", "\n")
+
+
+def tpl_is_templated(parts):
+    return parts is not None and any(p[0] == "var" for p in parts)
+
+
+def own_intent(cat, i):
+    return f"refuse {cat} {i}"
+
+
+def refusal_intents(cfg):
+    """the bot intents with which a rail of this configuration refuses (the library's and the rails' own)"""
+    out = {"refuse to respond"}
+    own = (cfg.get("msgs") or {}).get("own") or {}
+    for cat in ("input", "output"):
+        for i, t in enumerate(own.get(cat) or []):
+            if t is not None:
+                out.add(own_intent(cat, i))
+    return out
+
+
+def blocked_utterances(cfg, cat, i, text_seen, user_message):
+    """documented: what a rail of category `cat`, index `i`, says when it blocks the text `text_seen` - the texts of the predefined
+    messages it utters (an optional notice, then its refusal), variables replaced by the values the rail has just set"""
+    m = cfg.get("msgs") or {}
+    reasons = (cfg.get("reasons") or {}).get(cat) or []
+    env = {"block_reason": reasons[i] if i < len(reasons) else "", "blocked_text": text_seen, "user_message": user_message}
+    out = []
+    if m.get("notice") is not None:
+        out.append(tpl_render(m["notice"], env))
+    own = ((m.get("own") or {}).get(cat) or [])
+    t = own[i] if i < len(own) and own[i] is not None else m.get("refusal")
+    out.append(REFUSAL if t is None else tpl_render(t, env))
+    return out
+
+
+def dialog_refusal(cfg, user_message):
+    """documented: the text of `bot refuse to respond` when a DIALOG flow says it (no rail has set anything in this turn)"""
+    t = (cfg.get("msgs") or {}).get("refusal")
+    return REFUSAL if t is None else tpl_render(t, {"user_message": user_message})
+
+
+def predef_text(cfg, user_message=None):
+    """the predefined message of the dialog flow: source text (user_message None) or what it says for the current `$user_message`"""
+    parts = cfg.get("predef_parts")
+    if parts is None:
+        return cfg.get("predef_text", "Hello there")
+    return tpl_source(parts) if user_message is None else tpl_render(parts, {"user_message": user_message})
+
+
 def colang_source(cfg):
     kw = "define subflow" if cfg.get("rail_def", "subflow") == "subflow" else "define flow"
     var = {"input": "$user_message", "output": "$bot_message", "retrieval": "$relevant_chunks"}
     exc = {"input": "InputRailException", "output": "OutputRailException", "retrieval": "RetrievalRailException"}
     out = []
+    msgs = cfg.get("msgs")
+    if msgs is not None:
+        defs = []
+        if msgs.get("refusal") is not None:
+            defs.append(("refuse to respond", msgs["refusal"]))
+        if msgs.get("notice") is not None:
+            defs.append(("inform blocked", msgs["notice"]))
+        for cat in ("input", "output"):
+            for i, t in enumerate((msgs.get("own") or {}).get(cat) or []):
+                if t is not None and i < len(cfg.get(cat, [])):
+                    defs.append((own_intent(cat, i), t))
+        for intent, parts in defs:
+            out += [f"define bot {intent}", '  "' + tpl_source(parts) + '"', ""]
     for cat in ("input", "output", "retrieval"):
         for i, _ in enumerate(cfg.get(cat, [])):
             out.append(f"{kw} {rail_name(cat, i)}")
@@ -198,10 +303,20 @@ def colang_source(cfg):
             else:
                 out.append(f'  $verdict = execute scripted_rail(cat="{cat}", idx={i}, text={var[cat]})')
             out.append('  if $verdict.kind == "reject"')
+            if msgs is not None and cat != "retrieval":
+                # context variables set by the rail, for the predefined messages that interpolate them
+                out.append("    $block_reason = $verdict.reason")
+                out.append(f"    $blocked_text = {var[cat]}")
             if cfg.get("exceptions"):
                 out.append(f'    create event {exc[cat]}(message="blocked by {rail_name(cat, i)}")')
             else:
-                out.append("    bot refuse to respond")
+                own = ((msgs or {}).get("own") or {}).get(cat) or []
+                if (msgs or {}).get("notice") is not None and cat != "retrieval":
+                    out.append("    bot inform blocked")
+                if i < len(own) and own[i] is not None:
+                    out.append(f"    bot {own_intent(cat, i)}")
+                else:
+                    out.append("    bot refuse to respond")
             out.append("    stop")
             out.append('  if $verdict.kind == "rewrite"')
             out.append(f"    {var[cat]} = $verdict.text")
@@ -219,7 +334,7 @@ def colang_source(cfg):
             "",
         ]
         if cfg["dialog"] == "predef":
-            out += ["define bot express greeting", '  "' + cfg.get("predef_text", "Hello there") + '"', ""]
+            out += ["define bot express greeting", '  "' + predef_text(cfg) + '"', ""]
     return "\n".join(out) + "\n"
 
 
@@ -268,7 +383,8 @@ class Script:
 
 def _cfg_key(cfg):
     return (len(cfg.get("input", [])), len(cfg.get("output", [])), len(cfg.get("retrieval", [])), cfg.get("rail_def", "subflow"),
-            cfg.get("dialog", "general"), bool(cfg.get("exceptions")), cfg.get("predef_text", "Hello there"), cfg.get("text_from", "param"))
+            cfg.get("dialog", "general"), bool(cfg.get("exceptions")), predef_text(cfg), cfg.get("text_from", "param"),
+            json.dumps(cfg.get("msgs"), sort_keys=True))
 
 
 def get_app(cfg):
@@ -295,7 +411,8 @@ def get_app(cfg):
         kind, new = apply_rail(script.cfg[cat][idx], text)
         if kind == "fault":
             raise RuntimeError("scripted rail fault")
-        return {"kind": kind, "text": new}
+        reasons = (script.cfg.get("reasons") or {}).get(cat) or []
+        return {"kind": kind, "text": new, "reason": reasons[idx] if idx < len(reasons) else ""}
 
     app.register_action(scripted_rail, "scripted_rail")
     _CACHE[key] = (app, llm, script)
